@@ -107,6 +107,33 @@ struct Rig {
     nf: Vec<Option<Reference<dyn Getter<f32, E>>>>,
     nb: Vec<Option<Reference<dyn Getter<bool, E>>>>,
     nq: Vec<Option<Reference<dyn Getter<Quantity, E>>>>,
+    /// header `leafref` != 0: ONE Reference per leaf, shared by every node that reads the leaf (empty
+    /// otherwise: every use gets its own Rc handle over the same scripted cell)
+    cf: Vec<Reference<dyn Getter<f32, E>>>,
+    cb: Vec<Reference<dyn Getter<bool, E>>>,
+    cq: Vec<Reference<dyn Getter<Quantity, E>>>,
+}
+
+/// One shared Reference to a leaf sensor: 1 Rc<RefCell>, 2 Arc<Mutex> (not re-entrant: a combinator that
+/// still holds its borrow of one input while it reads another input backed by the same leaf never
+/// returns), 3 Arc<RwLock>.
+fn shared_leaf<T: Clone + 'static>(mode: i64, s: Sensor<T>) -> Reference<dyn Getter<T, E>> {
+    // (the lock-backed variants exist only when rrtk is built with std)
+    #[cfg(any(feature = "v_libm", feature = "v_micromath"))]
+    let mode = if mode > 1 { 1 } else { mode };
+    match mode {
+        #[cfg(not(any(feature = "v_libm", feature = "v_micromath")))]
+        2 => {
+            let a: std::sync::Arc<std::sync::Mutex<dyn Getter<T, E>>> = std::sync::Arc::new(std::sync::Mutex::new(s));
+            Reference::from_arc_mutex(a)
+        }
+        #[cfg(not(any(feature = "v_libm", feature = "v_micromath")))]
+        3 => {
+            let a: std::sync::Arc<std::sync::RwLock<dyn Getter<T, E>>> = std::sync::Arc::new(std::sync::RwLock::new(s));
+            Reference::from_arc_rw_lock(a)
+        }
+        _ => dyn_getter::<T, _>(s),
+    }
 }
 
 trait Payload: Clone + 'static {
@@ -117,6 +144,7 @@ impl Payload for f32 {
     fn slot(rig: &Rig, name: &str) -> Option<Reference<dyn Getter<f32, E>>> {
         let i: usize = name[1..].parse().ok()?;
         match &name[..1] {
+            "f" if !rig.cf.is_empty() => rig.cf.get(i).cloned(),
             "f" => rig.lf.get(i).map(|h| dyn_getter::<f32, _>(h.sensor())),
             "n" => rig.nf.get(i).cloned().flatten(),
             _ => None,
@@ -130,6 +158,7 @@ impl Payload for bool {
     fn slot(rig: &Rig, name: &str) -> Option<Reference<dyn Getter<bool, E>>> {
         let i: usize = name[1..].parse().ok()?;
         match &name[..1] {
+            "b" if !rig.cb.is_empty() => rig.cb.get(i).cloned(),
             "b" => rig.lb.get(i).map(|h| dyn_getter::<bool, _>(h.sensor())),
             "n" => rig.nb.get(i).cloned().flatten(),
             _ => None,
@@ -143,6 +172,7 @@ impl Payload for Quantity {
     fn slot(rig: &Rig, name: &str) -> Option<Reference<dyn Getter<Quantity, E>>> {
         let i: usize = name[1..].parse().ok()?;
         match &name[..1] {
+            "q" if !rig.cq.is_empty() => rig.cq.get(i).cloned(),
             "q" => rig.lq.get(i).map(|h| dyn_getter::<Quantity, _>(h.sensor())),
             "n" => rig.nq.get(i).cloned().flatten(),
             _ => None,
@@ -540,7 +570,17 @@ pub fn execute(plan: &Plan, ctx: &mut Ctx) {
         nf: vec![None; specs.len()],
         nb: vec![None; specs.len()],
         nq: vec![None; specs.len()],
+        cf: Vec::new(),
+        cb: Vec::new(),
+        cq: Vec::new(),
     };
+    let leafref = plan.get("leafref");
+    if leafref != 0 {
+        rig.cf = rig.lf.iter().map(|h| shared_leaf(leafref, h.sensor())).collect();
+        rig.cb = rig.lb.iter().map(|h| shared_leaf(leafref, h.sensor())).collect();
+        rig.cq = rig.lq.iter().map(|h| shared_leaf(leafref, h.sensor())).collect();
+        ctx.count("reach.shared_leaf_references");
+    }
     let mut alive = vec![false; specs.len()];
     for (i, s) in specs.iter().enumerate() {
         let ok = guarded(|| build_node(&mut rig, i, s, plan));
@@ -1093,12 +1133,49 @@ fn gen_c02_enum2(prop: &str, rng: &mut Rng, seed: u64, run: u64, mut k: u64) -> 
     plan
 }
 
+/// Third enumerated block: the SAME lock-backed Reference as both value inputs of every two-input
+/// combinator (and as all inputs of the n-ary ones), present / absent / erroring. (kind, inputs)
+pub const ENUM3: [(&str, &str); 16] = [
+    ("sum2.f", "f0,f0"), ("prod2.f", "f0,f0"), ("diff.f", "f0,f0"), ("quot.f", "f0,f0"), ("exp.f", "f0,f0"),
+    ("sum2.q", "q0,q0"), ("prod2.q", "q2,q2"), ("diff.q", "q0,q0"), ("quot.q", "q0,q0"),
+    ("sum.f", "f0,f0,f0"), ("prod.f", "f0,f0"), ("latest.f", "f0,f0,f0"), ("latest.q", "q0,q0"), ("sum.q", "q0,q0"),
+    ("ifelse.f", "b0,f0,f0"), ("ifelse.q", "b0,q0,q0"),
+];
+pub fn enum3_total() -> u64 {
+    ENUM3.len() as u64 * 3 * 2
+}
+fn gen_c02_enum3(prop: &str, rng: &mut Rng, seed: u64, run: u64, k: u64) -> Plan {
+    let mut plan = Plan::new("comb", prop, seed, run);
+    let (kind, ins) = ENUM3[(k / 6) as usize];
+    let cat = k % 3;
+    plan.set("leafref", 2 + (k / 3 % 2) as i64);
+    let ins: Vec<String> = ins.split(',').map(|x| x.to_string()).collect();
+    plan.sets("nodes", &nodes_text(&[NodeSpec { kind: kind.into(), ins, clock: 0, param: 0 }]));
+    plan.sets("equiv", "");
+    plan.set("qm", rng.range(-2, 2));
+    plan.set("qs", rng.range(-2, 2));
+    let t = rng.range(-1_000_000_000, 1_000_000_000);
+    plan.push("LB", &[0, t, rng.below(2) as i64]);
+    for (p, a, e, idx) in [("LF", "LFN", "LFE", 0i64), ("LQ", "LQN", "LQE", 0), ("LQ", "LQN", "LQE", 2)] {
+        match cat {
+            0 => plan.push(p, &[idx, t + 1, fb(rng.moderate_f32())]),
+            1 => plan.push(a, &[idx]),
+            _ => plan.push(e, &[idx, rng.range(1, 3)]),
+        }
+    }
+    plan.push("RR", &[]);
+    plan
+}
+
 pub fn gen_c02(prop: &str, tier: Tier, rng: &mut Rng, seed: u64, run: u64) -> Plan {
     if run < C02_ENUM && prop == "C02" {
         return gen_c02_enumerated(prop, rng, seed, run);
     }
     if run < C02_ENUM + enum2_total() && prop == "C02" {
         return gen_c02_enum2(prop, rng, seed, run, run - C02_ENUM);
+    }
+    if run < C02_ENUM + enum2_total() + enum3_total() && prop == "C02" {
+        return gen_c02_enum3(prop, rng, seed, run, run - C02_ENUM - enum2_total());
     }
     let mut plan = Plan::new("comb", prop, seed, run);
     let mut specs: Vec<NodeSpec> = Vec::new();
@@ -1151,6 +1228,9 @@ pub fn gen_c02(prop: &str, tier: Tier, rng: &mut Rng, seed: u64, run: u64) -> Pl
     plan.sets("equiv", &equiv.join(";"));
     plan.set("qm", rng.range(-2, 2));
     plan.set("qs", rng.range(-2, 2));
+    // how the nodes reach the leaves: a handle of their own each (0), or one shared Reference per leaf
+    // behind an Rc (1), a Mutex (2) or an RwLock (3)
+    plan.set("leafref", *rng.pick(&[0, 0, 0, 0, 0, 1, 2, 2, 3, 3]));
     let steps = rng.range(1, if tier == Tier::Quick { 12 } else { 30 });
     let rate = *rng.pick(&[0.0, 0.1, 0.3, 0.5]);
     let extreme = rng.chance(0.15) && !has_expirer;
@@ -1365,7 +1445,7 @@ pub fn gen_graph(prop: &str, tier: Tier, rng: &mut Rng, seed: u64, run: u64) -> 
 }
 
 pub fn generate(prop: &str, tier: Tier, rng: &mut Rng, seed: u64, run: u64) -> Plan {
-    if run >= C02_ENUM + enum2_total() && run % 8 == 7 {
+    if run >= C02_ENUM + enum2_total() + enum3_total() && run % 8 == 7 {
         return gen_graph(prop, tier, rng, seed, run);
     }
     gen_c02(prop, tier, rng, seed, run)
